@@ -12,10 +12,16 @@ package chipauth
 
 // cipher suites of the CA protocol table (caAlgInfoLookup is a Go map, abstracted: trusted table lookup)
 //@ pred caSuite(a *CaAlgorithmInfo) { a != nil && ((a.cipherAlg == 1 && a.keySizeBits == 112) || (a.cipherAlg == 2 && (a.keySizeBits == 128 || a.keySizeBits == 192 || a.keySizeBits == 256))) }
+// the table as a function of the protocol identifier (cipher, key size, preference weight)
+//@ uf caCipherOf(seq) int
+//@ uf caBitsOf(seq) int
+//@ uf caWeightOf(seq) int
+//@ pred caSuiteFor(a *CaAlgorithmInfo, protocol seq) { caSuite(a) && a.cipherAlg == caCipherOf(protocol) && a.keySizeBits == caBitsOf(protocol) && a.weighting == caWeightOf(protocol) }
 //@ func algInfo
 //@   trusted
 //@   ensures (result1 == nil) == (result0 != nil)
 //@   ensures result1 == nil ==> caSuite(result0) && fresh(result0)
+//@   ensures "entry-of-this-protocol": result1 == nil ==> caSuiteFor(result0, oid)
 //@   ensures "table-keys-are-short": result1 == nil ==> len(oid) <= 16
 //@   assigns nothing
 
@@ -62,7 +68,7 @@ package chipauth
 // A usable CA object: reader-built (NewChipAuth) with a session and a document whose DG14, when present, was parsed.
 //@ pred validCA(ca *ChipAuth) { ca != nil && ca.keyGeneratorEc != nil && ca.nfcSession != nil && validNfc(*ca.nfcSession) && ca.document != nil && *ca.document != nil
 //@        && ((*ca.document).Mf.Lds1.Dg14 != nil ==> (*ca.document).Mf.Lds1.Dg14.SecInfos != nil) }
-//@ pred validParams(p *ChipAuthParams) { p != nil && p.Info != nil && caSuite(p.AlgInfo) && p.PubKeyInfo != nil && len(p.Info.Protocol) <= 16
+//@ pred validParams(p *ChipAuthParams) { p != nil && p.Info != nil && caSuite(p.AlgInfo) && p.PubKeyInfo != nil && len(p.Info.Protocol) <= 16 && caSuiteFor(p.AlgInfo, p.Info.Protocol)
 //@        && (p.Info.KeyId != nil ==> p.Info.KeyId.val >= 0 && blen(p.Info.KeyId.val) <= 1024) }
 
 // TLV construction of the command data (constructed node with dynamic dispatch to its children) is outside the
@@ -76,8 +82,9 @@ package chipauth
 //@   props C06 C14 C12
 //@   requires secInfos != nil
 //@   ensures "suite-from-table": err == nil && caAlgInfo != nil ==> caSuite(caAlgInfo) && caInfo != nil && len(caInfo.Protocol) <= 16
+//@   ensures "suite-is-the-one-of-the-selected-protocol": err == nil && caAlgInfo != nil ==> caSuiteFor(caAlgInfo, caInfo.Protocol)
 //@   ensures err != nil ==> caInfo == nil && caAlgInfo == nil
-//@   loop 1 invariant (bestCaAlgInfo != nil ==> caSuite(bestCaAlgInfo) && bestCaInfo != nil && len(bestCaInfo.Protocol) <= 16) && (bestCaInfo != nil ==> bestCaAlgInfo != nil)
+//@   loop 1 invariant (bestCaAlgInfo != nil ==> caSuite(bestCaAlgInfo) && bestCaInfo != nil && len(bestCaInfo.Protocol) <= 16 && caSuiteFor(bestCaAlgInfo, bestCaInfo.Protocol)) && (bestCaInfo != nil ==> bestCaAlgInfo != nil)
 //@   assigns nothing
 //@   safety all
 
@@ -91,6 +98,7 @@ package chipauth
 //@ func inferCAInfoFromKey
 //@   props C06 C14 C12
 //@   ensures "suite-from-table": err == nil && caAlgInfo != nil ==> caSuite(caAlgInfo) && caInfo != nil && len(caInfo.Protocol) <= 16
+//@   ensures "suite-is-the-one-of-the-inferred-protocol": err == nil && caAlgInfo != nil ==> caSuiteFor(caAlgInfo, caInfo.Protocol)
 //@   ensures err != nil ==> caInfo == nil && caAlgInfo == nil
 //@   assigns nothing
 //@   safety all
@@ -98,7 +106,7 @@ package chipauth
 //@ func resolveCAInfo
 //@   props C06 C14 C12
 //@   requires secInfos != nil
-//@   ensures "resolved-or-error": err == nil ==> caInfo != nil && caSuite(caAlgInfo) && len(caInfo.Protocol) <= 16
+//@   ensures "resolved-or-error": err == nil ==> caInfo != nil && caSuite(caAlgInfo) && len(caInfo.Protocol) <= 16 && caSuiteFor(caAlgInfo, caInfo.Protocol)
 //@   ensures err != nil ==> caInfo == nil && caAlgInfo == nil
 //@   assigns nothing
 //@   safety all
@@ -108,7 +116,8 @@ package chipauth
 //@   requires doc != nil && doc.Mf.Lds1.Dg14 != nil && doc.Mf.Lds1.Dg14.SecInfos != nil
 //@   ensures (result1 == nil) == (result0 != nil)
 //@   defines "input-size-assumption-key-id-below-1024-octets": result1 == nil && result0.Info.KeyId != nil ==> result0.Info.KeyId.val >= 0 && blen(result0.Info.KeyId.val) <= 1024
-//@   ensures "params-from-dg14": result1 == nil ==> result0 != nil && result0.Info != nil && caSuite(result0.AlgInfo) && result0.PubKeyInfo != nil && len(result0.Info.Protocol) <= 16 && fresh(result0) && result0.PubKeyInfo.Protocol === result0.AlgInfo.targetOid
+//@   ensures "params-from-dg14": result1 == nil ==> result0 != nil && result0.Info != nil && caSuite(result0.AlgInfo) && result0.PubKeyInfo != nil && len(result0.Info.Protocol) <= 16
+//@        && caSuiteFor(result0.AlgInfo, result0.Info.Protocol) && fresh(result0) && result0.PubKeyInfo.Protocol === result0.AlgInfo.targetOid
 //@        && (exists i :: 0 <= i && i < len(doc.Mf.Lds1.Dg14.SecInfos.ChipAuthPubKeyInfos)
 //@             && result0.PubKeyInfo.ChipAuthenticationPublicKey.SubjectPublicKey.Bytes === doc.Mf.Lds1.Dg14.SecInfos.ChipAuthPubKeyInfos[i].ChipAuthenticationPublicKey.SubjectPublicKey.Bytes
 //@             && result0.PubKeyInfo.ChipAuthenticationPublicKey.Algorithm.Parameters.FullBytes === doc.Mf.Lds1.Dg14.SecInfos.ChipAuthPubKeyInfos[i].ChipAuthenticationPublicKey.Algorithm.Parameters.FullBytes)
@@ -156,6 +165,7 @@ package chipauth
 //@        && ecKeyOf(params.PubKeyInfo.ChipAuthenticationPublicKey.SubjectPublicKey.Bytes, params.PubKeyInfo.ChipAuthenticationPublicKey.Algorithm.Parameters.FullBytes, ref(*curve), chipPubKey.X.val, chipPubKey.Y.val)
 //@   proves "session-restarted-under-ecdh-keys": err == nil ==> typeis((*chipAuth.nfcSession).sm, "*iso7816.SecureMessaging") && validSM(as((*chipAuth.nfcSession).sm, "*iso7816.SecureMessaging"))
 //@        && as((*chipAuth.nfcSession).sm, "*iso7816.SecureMessaging").alg == params.AlgInfo.cipherAlg
+//@        && params.AlgInfo.cipherAlg == caCipherOf(params.Info.Protocol) && params.AlgInfo.keySizeBits == caBitsOf(params.Info.Protocol)
 //@        && as((*chipAuth.nfcSession).sm, "*iso7816.SecureMessaging").ksEnc === kdfKey(caSecret(ref(*curve), termKeypair.Pri, chipPubKey.X.val, chipPubKey.Y.val), 1, params.AlgInfo.cipherAlg, params.AlgInfo.keySizeBits)
 //@        && as((*chipAuth.nfcSession).sm, "*iso7816.SecureMessaging").ksMac === kdfKey(caSecret(ref(*curve), termKeypair.Pri, chipPubKey.X.val, chipPubKey.Y.val), 2, params.AlgInfo.cipherAlg, params.AlgInfo.keySizeBits)
 //@   proves "confirmed-by-a-protected-exchange-under-the-new-keys": err == nil ==> (*chipAuth.nfcSession).lastProtected && (*chipAuth.nfcSession).lastSW == 36864
